@@ -187,6 +187,9 @@ impl Prop for C15 {
         let mut viol_rep = 0usize;
         let mut special_before = false;
         let mut panic_at = |p: PanicInfo, step: usize, what: &str| -> Violation {
+            if p.is_timeout() {
+                return Violation::new("timeout", "", step, "run time budget exceeded");
+            }
             Violation::new("panic", p.key(), step, format!("{} panicked: '{}' at {}", what, p.msg, p.loc))
         };
         for (step, e) in sc.events.iter().enumerate() {
@@ -278,6 +281,11 @@ impl Prop for C15 {
                 }
                 Ev::L { .. } | Ev::M { .. } | Ev::C { .. } => {}
             }
+        }
+        if out.violation.as_ref().map(|v| v.class == "timeout").unwrap_or(false) {
+            // not a crash of the library: the run was cut by the harness's wall-clock budget
+            out.violation = None;
+            st.hit("skip.run_time_budget");
         }
         if out.violation.is_some() && fed_immoderate_magnitude(spec, &hist[viol_rep.min(hist.len() - 1)], Symptom::Panic) {
             // e.g. a finiteness assertion tripped by the square of a 1e200 that an inner Roc legitimately produced
